@@ -612,7 +612,7 @@ func (s *Store) UpsertAccounts(ctx context.Context, accounts ...ledger.AccountWi
 
 func (s *Store) DeleteAccountMetadata(ctx context.Context, address, key string) error {
 	return s.stmt(ctx, "DeleteAccountMetadata", address, func(t *tables) error {
-		t.deleteAccountMetadata(address, key)
+		t.deleteAccountMetadata(s.m.now, address, key)
 		return nil
 	})
 }
